@@ -1,6 +1,6 @@
 """C03: the alignment does not depend on the order of the input records (names pairwise distinct).
 Groups of executions: identity order + permutations; relation Relate!SameColumns (same residues share a column, rows matched by name)."""
-import random, itertools, json
+import os, random, itertools, json
 import kv, gen, rel
 
 
@@ -103,8 +103,56 @@ def run(tier, seed, which="C03"):
         names = gen.names(rng, n)
         orders = [list(range(n))] + [[k] + [j for j in range(n) if j != k] for k in range(n)] + [list(range(n))[::-1]]
         add("mixed%d" % i, names, seqs, 5, orders, threads=rng.choice([1, 2]))
+    # records that still carry gap characters from an earlier alignment (kalign strips them, C04): a few gapped records among
+    # ungapped ones of other lengths; every record stands first once and last once, so that whatever the reader concludes about
+    # the input being aligned or not cannot hinge on which records it meets first
+    for i in range(8 if tier == "quick" else 80):
+        kind = rng.choice(["dna", "protein"])
+        alpha = gen.DNA if kind == "dna" else "DEFHIKLMPQRSVWY"
+        n = rng.randint(3, 6)
+        seqs = gen.family(rng, n, rng.randint(20, 70), alpha, sub=0.2, indel=0.08)
+        if i % 4 == 3:
+            L = min(len(x) for x in seqs)
+            seqs = [x[:L] for x in seqs]                      # equal lengths before the gaps are put in
+        gapped = rng.sample(range(n), rng.randint(1, max(1, n // 2)))
+        for g in gapped:
+            x = seqs[g]
+            for _ in range(rng.randint(1, 4)):
+                a = rng.randrange(0, len(x) + 1)
+                x = x[:a] + rng.choice(["-", "--", "-", ".", "---"]) + x[a:]
+            seqs[g] = x
+        names = gen.names(rng, n)
+        orders = [list(range(n))] + [[k] + [j for j in range(n) if j != k] for k in range(n)] + [[j for j in range(n) if j != k] + [k] for k in range(n)]
+        add("gappy%d" % i, names, seqs, 5, orders, threads=rng.choice([1, 2]))
     V.sample(dict(group="tiny0", names=tiny[0][0], seqs=tiny[0][1], orders="all 24 permutations"))
+    # design level: anchors are a function of the multiset of lengths (MC_Anchor AnchorsOk), a k-means try ends, partitions its
+    # samples, keeps their order and is a fixed point (KmeansOk); the twin (ties always left, no fallback) must be rejected
+    for cfg in (["MC_Anchor_q.cfg"] if tier == "quick" else ["MC_Anchor_q.cfg", "MC_Anchor_t.cfg", "MC_Anchor_t2.cfg"]):
+        r = kv.run_tlc("MC_Anchor", cfg, wd, workers=8, timeout=3400, heap="6g", name=cfg)
+        V.add_tlc(r)
+        if not r.ok:
+            raise kv.Broken("MC_Anchor %s fails: %s" % (cfg, r.out[-500:]))
+    if kv.run_tlc("MC_Anchor", "MC_Anchor_twin.cfg", wd, workers=2, timeout=600, heap="2g", name="anchor_twin").ok:
+        raise kv.Broken("MC_Anchor twin was not rejected: KmeansOk is vacuous")
     rel.run_groups(V, groups, wd, per_batch=3, timeout=600, pipeline=True)
+    # the front end of the guide tree above the 100-sequence switch, step by step (hook level 2, GuideTreeTrace + Anchor):
+    # 100..128 short sequences (the whole numseq x 32 anchor matrix is logged), many length ties, two or three orders each
+    front = []
+    groups_main, groups = groups, front
+    for i in range(3 if tier == "quick" else 24):
+        n = [100, 128, 113][i % 3] if i < 3 else rng.randint(100, 128)
+        kind = rng.choice(["dna", "protein"])
+        alpha = gen.DNA if kind == "dna" else gen.AA
+        L = rng.randint(9, 18)
+        seqs = gen.family(rng, n, L, alpha, sub=rng.choice([0.15, 0.3]), indel=rng.choice([0.0, 0.06, 0.12]))
+        if kind == "protein":
+            seqs = [s + "LKEF" for s in seqs]
+        names = gen.names(rng, n, "prefix")
+        orders = perms_of(rng, n, 2)
+        orders.append(sorted(range(n), key=lambda j: (-len(seqs[j]), [-ord(c) for c in names[j]])))
+        add("front%d" % i, names, seqs, 5, orders, threads=rng.choice([1, 4]))
+    groups = groups_main
+    rel.run_groups(V, front, os.path.join(wd, "front"), per_batch=1, timeout=600, guidetree=True)
     return V.finish(rule="groups = one named sequence set in several record orders (all n! for tiny inputs with length ties / prefix names / case-only name differences; "
                     "reversal, rotation, random, length-sorted with name-descending ties, name-sorted for generated families incl. all-equal lengths; 99/101/130+ sequences); "
                     "relation = same set of columns as sets of (name, residue index); distinct by sequence set and type",
